@@ -388,9 +388,14 @@ def check_nothing_imported_while_compiling(ctx):
                         "a module imported here, and everything it imports, is cached un-instrumented under the instrumented tag")
                 continue
             # a call through an attribute that holds code generated with exec (`self._resolve = ns["resolve"]` after `exec(src, {}, ns)`)
-            if isinstance(c.func, ast.Attribute) and isinstance(c.func.value, ast.Name) and f.cls is not None and f.params and c.func.value.id == f.params[0] \
-                    and c.func.attr not in {mn for k in m.mro(f.cls) if hasattr(k, "methods") for mn in k.methods}:
-                vals = m.instance_attr_values(f.cls, c.func.attr)
+            all_methods = {mn for k in m.classes.values() for mn in k.methods}
+            if isinstance(c.func, ast.Attribute) and c.func.attr not in all_methods:
+                # which class keeps such an attribute?  (the receiver may be `self` or a chain like `self._typechecker`)
+                vals = []
+                for k in m.classes.values():
+                    if k.module.short.startswith("_typeguard"):
+                        continue
+                    vals += m.instance_attr_values(k, c.func.attr)
                 for owner, v in vals:
                     if isinstance(v, ast.Subscript) and isinstance(v.value, ast.Name):
                         ns = v.value.id
